@@ -21,7 +21,7 @@ func TestVerif(t *testing.T) {
 		ID:    "C01",
 		Level: "model_checking",
 		Rule: "(a) every DAG of the exhaustive family U(n) x every root x every link-closed destination subset x Concurrency x API variant under the default schedule; " +
-			"(b) every curated collision shape (plus 'urls-layer': an ordinary layer whose descriptor lists mirror URLs next to a foreign layer) x pre-population x Concurrency under every schedule within the deviation bound of three base schedulers, " +
+			"(b) every curated collision shape (plus 'urls-layer': an ordinary layer whose descriptor lists mirror URLs next to a foreign layer; 'index-with-blob': an index that lists a non-manifest entry next to a manifest) x pre-population x Concurrency under every schedule within the deviation bound of three base schedulers, " +
 			"including CopyGraph into a destination that can mount blobs (mounted or copied after all is an input choice per blob and candidate repository; candidate lists: none, one, two, one twice, one and a blank), Copy with MapRoot / target-platform selection, and Copy into a destination that already holds the graph and whose destination reference already names another manifest of it (the unmapped root, or a manifest below the root); " +
 			"(c') an index over two manifests whose layers carry the same title and different bytes, into memory, OCI and file destinations (the file store may refuse; success is judged); (c) curated shapes x ordered pairs of store kinds (memory, OCI layout, file, remote via Referrers API, remote via tag schema). Oracle: generator's own edge list. " +
 			"non-trivial = distinct (shape, root, pre-population, variant) scenario in which at least one node was actually transferred",
@@ -48,7 +48,7 @@ type scen struct {
 }
 
 // family is the curated family plus the shapes only this harness adds.
-func family() []*DAG { return append(Curated(), Extra("urls-layer")) }
+func family() []*DAG { return append(Curated(), Extra("urls-layer"), Extra("index-with-blob")) }
 
 func (s scen) name() string {
 	nm := fmt.Sprintf("%s/root=%s/prep=%v/conc=%d/%s/%s->%s", s.d.Name, s.d.Nodes[s.root].Name, s.prepop, s.conc, s.api, s.src, s.dst)
